@@ -1,8 +1,77 @@
 import JrsVerif.Common.J
+import JrsVerif.Model.Obj
 
 namespace JrsVerif.Drv.C02
-open Lean JrsVerif.J
+open Lean JrsVerif.J JrsVerif.Obj
 
-def handle (_op : String) (_j : Json) : Option Json := none
+def parseVis (s : String) : Vis :=
+  if s == "h" then .hidden else if s == "u" then .unhide else .normal
+def showVis : Vis → String
+  | .normal => "n" | .hidden => "h" | .unhide => "u"
+
+def parseField (j : Json) : Option Field := do
+  pure { name := (← nat? j "n"), add := (← bool? j "add"), vis := parseVis (← str? j "vis"),
+         val := (← nat? j "val") }
+
+partial def parseT (j : Json) : Option OT := do
+  match (← str? j "k") with
+  | "lit" => some (.lit ((← arr? j "fs").toList.filterMap parseField))
+  | "add" => some (.add (← parseT (← val? j "a")) (← parseT (← val? j "b")))
+  | "rm" => some (.rm (← parseT (← val? j "o")) (nats (← arr? j "ns")))
+  | _ => none
+
+def sortFields (fs : List Field) : List Field :=
+  (fs.toArray.qsort (fun a b => a.name < b.name)).toList
+
+def shapeJson (cs : List Core) : Json :=
+  .arr (cs.map (fun c => match c with
+    | .oop fs => obj [("k", .str "oop"), ("fs", .arr ((sortFields fs).map (fun f =>
+        Json.arr #[toJson f.name, toJson f.add, .str (showVis f.vis)])).toArray)]
+    | .omitC ns k => obj [("k", .str "omit"), ("ns", ofNats (sortDedup ns)), ("prev", toJson k)])).toArray
+
+def valsJson (l : List Field) : Json :=
+  if l.isEmpty then .null else ofNats (l.reverse.map (·.val))
+
+def layerOf (cs : List Core) (p : Nat) : Option Nat :=
+  cs.findIdx? (fun c => match c with | .oop fs => (lookup fs p).isSome | _ => false)
+
+def handle (op : String) (j : Json) : Option Json :=
+  match op with
+  | "obj.shape" =>
+    match (do parseT (← val? j "t")) with
+    | none => some (bad "obj.shape: parse")
+    | some t => some (obj [("model", shapeJson (compile t))])
+  | "obj.probe" =>
+    match (do let t ← parseT (← val? j "t"); pure (t, nats (← arr? j "names"), nats (← arr? j "probes"))) with
+    | none => some (bad "obj.probe: parse")
+    | some (t, names, probes) =>
+      let cs := compile t
+      let n := cs.length
+      let mPer := names.map (fun x => obj [
+        ("has", toJson (match visIdx cs n x with | some v => v.visible | none => false)),
+        ("hasAll", toJson (hasIdx cs n x)),
+        ("get", valsJson ((getIdx cs n x).map (·.1)))])
+      let sPer := names.map (fun x => obj [
+        ("has", toJson (match specVis t x with | some v => v.visible | none => false)),
+        ("hasAll", toJson (specHas t x)),
+        ("get", valsJson (specGet t x))])
+      let mProbes := probes.map (fun p => match layerOf cs p with
+        | none => Json.null
+        | some l => obj [
+            ("has", .arr (names.map (fun x => toJson (hasIdx cs l x))).toArray),
+            ("get", .arr (names.map (fun x => valsJson ((getIdx cs l x).map (·.1)))).toArray)])
+      let sProbes := probes.map (fun p => match layerOf cs p with
+        | none => Json.null
+        | some l =>
+          let t' := takeTerm t l
+          obj [
+            ("has", .arr (names.map (fun x => toJson (specHas t' x))).toArray),
+            ("get", .arr (names.map (fun x => valsJson (specGet t' x))).toArray)])
+      some (obj [
+        ("model", obj [("fields", ofNats (fieldsEx cs false)), ("fieldsAll", ofNats (fieldsEx cs true)),
+                       ("per", .arr mPer.toArray), ("probes", .arr mProbes.toArray)]),
+        ("spec", obj [("fields", ofNats (specFields t false)), ("fieldsAll", ofNats (specFields t true)),
+                      ("per", .arr sPer.toArray), ("probes", .arr sProbes.toArray)])])
+  | _ => none
 
 end JrsVerif.Drv.C02
